@@ -256,6 +256,19 @@ impl<K: CacheKey + 'static> MultiLayerCacheImpl<K> {
         }
     }
 
+    /// Drop copies of `key` from every layer except `keep`.
+    ///
+    /// A put only writes one layer; an older value left in another layer would
+    /// be served as if it were current once the written layer evicts the entry
+    /// (or, for a put into a lower layer, straight away by the faster layers).
+    async fn invalidate_other_layers(&self, key: &K, keep: usize) {
+        for (layer_index, layer) in self.layers.iter().enumerate() {
+            if layer_index != keep {
+                let _ = layer.remove(key).await;
+            }
+        }
+    }
+
     /// Promote an entry from a lower layer to a higher layer
     async fn promote_entry(&self, key: K, from_layer: usize, to_layer: usize) -> CacheResult<bool> {
         if from_layer <= to_layer {
@@ -454,6 +467,7 @@ impl<K: CacheKey + 'static> MultiLayerCacheImpl<K> {
 
         // Store in first layer (L1 - fastest) if validation passed
         self.layers[0].put(key.clone(), value).await?;
+        self.invalidate_other_layers(&key, 0).await;
 
         // Initialize promotion tracking
         if let Ok(mut tracker) = self.promotion_tracker.write() {
@@ -516,6 +530,7 @@ impl<K: CacheKey + 'static> MultiLayerCacheImpl<K> {
 
         // Store in first layer (L1 - fastest) if validation passed
         self.layers[0].put_with_ttl(key.clone(), value, ttl).await?;
+        self.invalidate_other_layers(&key, 0).await;
 
         // Initialize promotion tracking
         if let Ok(mut tracker) = self.promotion_tracker.write() {
@@ -840,6 +855,11 @@ impl<K: CacheKey + 'static> AsyncCache<K> for MultiLayerCacheImpl<K> {
         // Store in first layer (L1 - fastest)
         let result = self.layers[0].put(key.clone(), value).await;
 
+        // Older values left in the slower layers must not outlive this put
+        if result.is_ok() {
+            self.invalidate_other_layers(&key, 0).await;
+        }
+
         // Initialize promotion tracking
         if result.is_ok()
             && let Ok(mut tracker) = self.promotion_tracker.write()
@@ -857,6 +877,11 @@ impl<K: CacheKey + 'static> AsyncCache<K> for MultiLayerCacheImpl<K> {
 
         // Store in first layer (L1 - fastest)
         let result = self.layers[0].put_with_ttl(key.clone(), value, ttl).await;
+
+        // Older values left in the slower layers must not outlive this put
+        if result.is_ok() {
+            self.invalidate_other_layers(&key, 0).await;
+        }
 
         // Initialize promotion tracking
         if result.is_ok()
@@ -1004,7 +1029,12 @@ impl<K: CacheKey + 'static> MultiLayerCache<K> for MultiLayerCacheImpl<K> {
             )));
         }
 
-        self.layers[layer].put(key, value).await
+        self.layers[layer].put(key.clone(), value).await?;
+
+        // The other layers may hold an older value for the key; faster layers
+        // would keep serving it instead of the one just written
+        self.invalidate_other_layers(&key, layer).await;
+        Ok(())
     }
 
     async fn promote(&self, key: &K, from_layer: usize, to_layer: usize) -> CacheResult<bool> {
